@@ -24,6 +24,22 @@ PROPS = {
         "note": "Trusted: Coq kernel; the hand-written model of index_scanner.go (tied to the code only by the correspondence run on this tree); entries are uint64 so every entry <= NULLENTRY. No axioms.",
         "assumptions": ["posting lists are sorted ascending (the builder sorts them; C01/C02 cover that)", "targets and entries are uint64 values"],
     },
+    "C01": {
+        "level": "proof",
+        "design_ref": "§6 C01",
+        "technique": "Coq proof that the conjunction scan over the built posting streams equals DNF semantics (any document set/assignment), refinement lemmas from concrete cursors to streams; executable concrete model (builder, holders, cursors, k-groups loop) and DNF specification both compared with the real index inside Coq",
+        "text": "documents -> k-groups streams -> scan = DNF semantics is a Coq theorem for all document sets and assignments (termination and exactly-once included); the concrete executable model of builder/holders/cursors/loop and the three-line DNF specification are compared with the real builder and index on generated document sets and queries.",
+        "note": "Trusted: Coq kernel; hand-written model Model/Index.v tied to the code by the correspondence run; hash ids modelled injectively (no FNV collision); Go map iteration order modelled as list order (observables compared are order independent). No axioms.",
+        "assumptions": ["distinct document ids", "no FNV-64 collision among the values used", "values within the modelled fragment of fmt/strconv"],
+    },
+    "C02": {
+        "level": "proof",
+        "design_ref": "§6 C02",
+        "technique": "Coq proof of the generic conjunction scan with a monotone need function (compact = max 1 size) for all sorted stream sets; executable concrete model of the compact index and DNF specification compared with the real index inside Coq",
+        "text": "the generic scan theorem (any sorted streams, monotone need >= 1) covers the compact loop with need = max(1,size); the concrete executable model and the DNF specification are compared with the real compact builder/index on generated document sets biased to mixed sizes and early exit.",
+        "note": "Trusted: as C01.",
+        "assumptions": ["distinct document ids", "no FNV-64 collision among the values used"],
+    },
 }
 
 # properties not claimed (reason); empty when everything is claimed
